@@ -842,6 +842,64 @@ class Execution:
         if any(list(m.nodes) != list(m.sorted_nodes) for m in mols):
             self.stats.probes['coords_vs_itp_order_disagrees'] += 1
 
+    def op_name_moltypes(self, op, slots, deduplicate):
+        """C03: NameMolType on a system of pool members (copies, edited copies, merged molecules): two molecules may
+        get the same name only if the ITPs written for them are identical."""
+        import io
+        from vermouth.system import System
+        from vermouth.processors.name_moltype import NameMolType
+        from vermouth.gmx.itp import write_molecule_itp
+        slots = [s for s in slots if s in self.slots]
+        if len(set(slots)) != len(slots) or not slots:
+            return False
+        system = System()
+        system.molecules = [self.slots[s][0] for s in slots]
+        out = self.call(NameMolType(deduplicate=bool(deduplicate)).run_system, system)
+        self.expect_ok(out, op)
+        names = [m.meta.get('moltype') for m in system.molecules]
+        if any(n is None for n in names):
+            raise Violation('moltype-missing', expected='every molecule named', actual=names, detail=repr(op))
+        if not deduplicate and len(set(names)) != len(names):
+            raise Violation('moltype-not-unique', expected='distinct names without deduplication', actual=names, detail=repr(op))
+        groups = collections.OrderedDict()
+        for mol, model, name in zip(system.molecules, [self.slots[s][1] for s in slots], names):
+            groups.setdefault(name, []).append((mol, model))
+        for name, members in groups.items():
+            if len(members) < 2:
+                continue
+            self.stats.probes['moltype_shared'] += 1
+            texts = []
+            for mol, model in members:
+                writable = (model.nrexcl is not None and len(model.nodes) > 0
+                            and all(all(r in a for r in itpcheck.REQUIRED) for a in model.nodes.values())
+                            and not any(m.get('ifdef') is not None and m.get('ifndef') is not None
+                                        for items in model.inter.values() for _, _, m in items))
+                if not writable:
+                    texts = None
+                    break
+                buf = io.StringIO()
+                write_molecule_itp(mol, buf, moltype=name)
+                texts.append(buf.getvalue())
+            if texts is None:
+                # not writable as ITP: compare the topological content of the models instead
+                def content(model):
+                    return (sorted((repr(k), sorted((a, repr(v)) for a, v in attrs.items() if a not in ('position', 'chain', 'graph', 'mapping_weights')))
+                                   for k, attrs in model.nodes.items()),
+                            sorted(sorted(map(repr, e)) for e in model.edges),
+                            sorted((t, sorted(repr(i) for i in items)) for t, items in model.inter.items() if items))
+                base = content(members[0][1])
+                if any(content(model) != base for _, model in members[1:]):
+                    raise Violation('shared-moltype-differs', expected='molecules named %s are identical' % name,
+                                    actual='their contents differ', signature='shared-moltype-differs:library', detail=repr(op))
+                continue
+            if any(t != texts[0] for t in texts[1:]):
+                other = next(t for t in texts[1:] if t != texts[0])
+                la, lb = texts[0].splitlines(), other.splitlines()
+                diff = next(((x, y) for x, y in zip(la, lb) if x != y), ('<%d lines>' % len(la), '<%d lines>' % len(lb)))
+                raise Violation('shared-moltype-differs', expected='molecules named %s have identical written topologies' % name,
+                                actual={'first': diff[0], 'other': diff[1]}, signature='shared-moltype-differs:library', detail=repr(op))
+            self.stats.probes['moltype_shared_checked'] += 1
+
     def op_itp(self, op, slot, moltype):
         """C02 observation: write the state reached by this history and read it back."""
         from vermouth.gmx.itp import write_molecule_itp
@@ -1023,6 +1081,9 @@ class Generator:
         m = self.models[slot]
         keys = list(m.nodes)
         r = rng.random()
+        if self.focus == 'C03' and len(slots) > 1 and rng.random() < 0.12:
+            self.emit(['name_moltypes', rng.sample(slots, rng.randint(2, len(slots))), int(rng.random() < 0.85)])
+            return
         if self.focus == 'C03' and rng.random() < 0.22:
             if rng.random() < 0.5:
                 self.emit(['set_atomids', slot, rng.choice(['none', 'perm', 'perm', 'partial']), rng.randrange(1 << 20)])
@@ -1113,7 +1174,7 @@ class Generator:
                 return
             self.emit(['remove_interaction', slot, t, atoms, version])
             m.remove_interaction(t, atoms, version)
-        elif r < 0.74:
+        elif r < (0.78 if self.focus == 'C03' else 0.74):
             dst = rng.randrange(NSLOTS)
             if dst != slot:
                 self.emit(['copy', slot, dst])
@@ -1330,9 +1391,10 @@ class C03MCheck(_MolCheck):
     focus = 'C03'
     rule = ('World M part: systems of history-made molecules (node order, node keys and atom ids disagreeing after merges, removals '
             'and explicit atom-id permutations) are written with the real write_pdb_string / write_gro and write_molecule_itp; '
-            'the k-th coordinate record of each molecule must be the k-th [atoms] line. distinct = scenario digest; non-trivial = at '
+            'the k-th coordinate record of each molecule must be the k-th [atoms] line; NameMolType runs on systems of copies and edited '
+            'copies and molecules sharing a name must have identical written topologies. distinct = scenario digest; non-trivial = at '
             'least one system written and compared')
-    probes_expected = ['coords_vs_itp_pdb', 'coords_vs_itp_gro', 'coords_vs_itp_order_disagrees']
+    probes_expected = ['coords_vs_itp_pdb', 'coords_vs_itp_gro', 'coords_vs_itp_order_disagrees', 'moltype_shared', 'moltype_shared_checked']
 
     def budgets(self, tier):
         if tier == 'thorough':
